@@ -243,6 +243,12 @@ NextMpsRoundtrip ==
        vec' = Ev("mps_roundtrip", [inst |-> Inst(sense, << V(14, k, b), V(8, k3, <<>>), V(3, k2, IF k3 = "integer" THEN <<>> ELSE B(R(-1), R(4))) >>,
                                                  L(<< T(14, R(2)), T(3, <<-1,2>>) >>, R(3)),
                                                  << C(21, "le", L(<< T(14, R(1)), T(3, R(1)) >>, R(-4))), C(4, "eq", K(R(0))), C(10, "le", K(R(-1))) >>, <<>>, <<>>)])
+  \* tiny magnitudes whose shortest decimal form needs 17 significant digits (1/2^26 = 1.4901161193847656e-8), in every
+  \* numeric field the writer prints: objective / constraint coefficients, both RHS constants, both bounds
+  \/ \E t \in { <<1, 67108864>>, <<-1, 67108864>>, <<7, 67108864>>, <<-9, 33554432>>, <<11, 16777216>> }, where \in {"objcoef", "concoef", "objconst", "conconst", "lower", "upper"} :
+       vec' = Ev("mps_roundtrip", [inst |-> Inst("min", << V(1, "continuous", IF where = "lower" THEN B(t, R(3)) ELSE IF where = "upper" THEN B(R(-3), t) ELSE <<>>), V(2, "integer", B(R(0), R(3))) >>,
+                                                 L(<< T(1, IF where = "objcoef" THEN t ELSE R(1)), T(2, R(2)) >>, IF where = "objconst" THEN t ELSE Zero),
+                                                 << C(5, "le", L(<< T(2, IF where = "concoef" THEN t ELSE R(1)), T(1, R(1)) >>, IF where = "conconst" THEN t ELSE R(-1))) >>, <<>>, <<>>)])
   \/ \E bad \in {"objective", "constraint", "both"} :
        vec' = Ev("mps_roundtrip", [inst |-> Inst("min", << V(1, "continuous", <<>>), V(2, "integer", B(R(0), R(3))) >>,
                                                  IF bad \in {"objective", "both"} THEN Q(<<1>>, <<2>>, <<R(1)>>, <<>>) ELSE L(<< T(1, R(1)) >>, Zero),
